@@ -428,6 +428,9 @@ def run(ctx):
     # back-end rule asserts on it (rule shared with C05)
     import importlib
     importlib.import_module("rules.c05").scalar_operand_checked(db, rep, "D15-SCALAR-OPERAND-CHECKED")
+    # ... and a refused slot must not be counted: the compile of a text that needs too many compiler temporaries must end in a
+    # result code, not in a clean-up that trusts a counter bumped before the capacity test (shared with C05)
+    importlib.import_module("rules.c05").counter_unchanged_on_refusal(db, rep, "D19-COUNTER-ON-REFUSAL")
 
     # ---- D16: "bad numbers ... reports each problem as an error record": every conversion of a token into a number looks at
     # how much of the token the conversion took
